@@ -63,8 +63,11 @@ def run_kind(kind, tcfg, runtime, retries=0, faults=None):
 
     async def main():
         try:
+            async def pieces():      # no Content-Length: HTTP/1.1 sends it chunked, the terminating chunk is a write of its own
+                yield b"x"
+                yield b"y"
             for tok in ("t1", "t2"):
-                async with pool.stream("POST", w["url"](0, tok), content=b"xy", extensions=ext) as resp:
+                async with pool.stream("POST", w["url"](0, tok), content=b"xy" if tok == "t1" else pieces(), extensions=ext) as resp:
                     out["status"] = resp.status
                     async for _ in resp.aiter_stream():
                         pass
